@@ -146,6 +146,7 @@ func runC20(c *Ctx) {
 	c20L5(c, li)
 	c20L6(c, li)
 	wsContract(c, "C20.L8")
+	c20ReusedBuffer(c)
 	commaOkDeref(c, "C20.L9", pkgFuncs(c.P, "pkg/gossip", "server/cluster", "server/upstream", "server/gossip", "server/proxy"), 8)
 	// no reflection / unsafe in module packages (VTA soundness assumption)
 	for _, pk := range p.Pkgs {
@@ -693,4 +694,118 @@ func wsContract(c *Ctx, rule string) {
 			}
 		})
 	}
+}
+
+// c20ReusedBuffer (C20.L10): a buffer that a loop refills on every iteration
+// (the target of Read/ReadFrom in that loop) is not handed to a goroutine
+// started in the loop - neither itself nor a slice of it - unless it was copied.
+// The goroutine would decode while the next datagram overwrites the bytes.
+func c20ReusedBuffer(c *Ctx) {
+	p := c.P
+	n := 0
+	base := func(v ssa.Value) ssa.Value {
+		for {
+			v = strip(v)
+			switch x := v.(type) {
+			case *ssa.Slice:
+				v = x.X
+				continue
+			case *ssa.UnOp:
+				if x.Op == token.MUL {
+					if _, isF := x.X.(*ssa.FieldAddr); isF {
+						return x.X // identify a field buffer by its address expression path
+					}
+				}
+			}
+			return v
+		}
+	}
+	for _, fn := range p.ModFuncs {
+		if isTestFile(p.Fset, fn.Pos()) || fn.Parent() != nil {
+			continue
+		}
+		// buffers refilled in a loop
+		type refill struct {
+			hdr *ssa.BasicBlock
+			buf ssa.Value
+		}
+		var refills []refill
+		allInstrs(fn, func(i ssa.Instruction) {
+			cc := callCommon(i)
+			if cc == nil || !cc.IsInvoke() {
+				return
+			}
+			m := cc.Method.Name()
+			if m != "Read" && m != "ReadFrom" && m != "ReadFromUDP" {
+				return
+			}
+			hdr := loopHeader(i.Block())
+			if hdr == nil || len(cc.Args) == 0 {
+				return
+			}
+			refills = append(refills, refill{hdr, base(cc.Args[0])})
+		})
+		if len(refills) == 0 {
+			continue
+		}
+		same := func(a, b ssa.Value) bool {
+			if a == b {
+				return true
+			}
+			// the same field of the same struct type, addressed twice (within one function: the same object)
+			fa, ok1 := a.(*ssa.FieldAddr)
+			fb, ok2 := b.(*ssa.FieldAddr)
+			if ok1 && ok2 {
+				va, _ := fieldVarOf(fa)
+				vb, _ := fieldVarOf(fb)
+				return va != nil && va == vb
+			}
+			return false
+		}
+		for _, g := range withAnon(fn) {
+			allInstrs(g, func(i ssa.Instruction) {
+				gi, ok := i.(*ssa.Go)
+				if !ok || g != fn {
+					return
+				}
+				hdr := loopHeader(gi.Block())
+				if hdr == nil {
+					return
+				}
+				var handed []ssa.Value
+				handed = append(handed, gi.Call.Args...)
+				if mc, ok := gi.Call.Value.(*ssa.MakeClosure); ok {
+					for _, b := range mc.Bindings {
+						// a captured variable: what is stored in its cell
+						if al, ok := b.(*ssa.Alloc); ok {
+							for _, r := range *al.Referrers() {
+								if st, ok := r.(*ssa.Store); ok && st.Addr == ssa.Value(al) {
+									handed = append(handed, st.Val)
+								}
+							}
+						} else {
+							handed = append(handed, b)
+						}
+					}
+				}
+				for _, rf := range refills {
+					if rf.hdr != hdr {
+						continue
+					}
+					n++
+					bad := ""
+					for _, h := range handed {
+						if _, isSlice := h.Type().Underlying().(*types.Slice); !isSlice {
+							continue
+						}
+						if same(base(h), rf.buf) {
+							bad = "the goroutine started at " + p.pos(gi.Pos()) + " receives (a slice of) the buffer that the loop refills"
+						}
+					}
+					c.check(bad == "", "C20.L10", fnName(fn)+"/refilled-buffer-not-shared", gi.Pos(), "the refilled buffer is not handed to the goroutine", bad+": the handler reads bytes while the next Read overwrites them (unsynchronised access; packets are mis-decoded or applied twice)")
+				}
+			})
+		}
+	}
+	c.note("C20.L10: %d (loop-refilled buffer, goroutine) pairs examined", n)
 }
